@@ -327,6 +327,42 @@ func filteredPaginateCallback(c *Ctx, parent *ssa.Function, call *ssa.Call, cb *
 					}
 				}
 			}
+			if !elemOK {
+				// a decode buffer the callback captured: the appended value is a load of that buffer, and on every path to the
+				// append the buffer was handed, with the callback's value, to the codec's Unmarshal (that it was emptied before is
+				// A12.decode-fresh's obligation)
+				if ac, ok := st.Val.(*ssa.Call); ok && len(ac.Common().Args) == 2 {
+					for _, el := range variadicElems(ac.Common().Args[1]) {
+						ld, ok := el.(*ssa.UnOp)
+						if !ok {
+							continue
+						}
+						buf, ok := ld.X.(*ssa.FreeVar)
+						if !ok {
+							continue
+						}
+						isDecode := func(x ssa.Instruction) bool {
+							dc, ok := x.(ssa.CallInstruction)
+							if !ok || !strings.Contains(methodNameOf(dc), "Unmarshal") {
+								return false
+							}
+							hasVal, hasBuf := false, false
+							for _, a := range dc.Common().Args {
+								if a == ssa.Value(val) {
+									hasVal = true
+								}
+								if stripIface(a) == ssa.Value(buf) {
+									hasBuf = true
+								}
+							}
+							return hasVal && hasBuf
+						}
+						if !ir.Reaches(cb, in, ir.Cut{Barrier: func(x ssa.Instruction) bool { return x != in && isDecode(x) }}) {
+							elemOK = true
+						}
+					}
+				}
+			}
 			r.Require(elemOK, "A12.element", key+"|store:"+addrName, pos(c, in), "the appended element is the item decoded from the callback's value", "appended: "+e.String())
 		}
 	}
